@@ -20,8 +20,7 @@ set(VH_LINK_LIBS
 )
 
 # engine: driver main + test-util glue + upstream fuzz helper functions (FuzzedDataProvider consumers)
-add_library(vh_engine STATIC EXCLUDE_FROM_ALL
-  ${VH_DIR}/engine/driver.cpp
+add_library(vh_glue STATIC EXCLUDE_FROM_ALL
   ${VH_DIR}/engine/glue.cpp
   ${VH_REPO}/src/test/fuzz/util.cpp
   ${VH_REPO}/src/test/fuzz/util/descriptor.cpp
@@ -29,15 +28,18 @@ add_library(vh_engine STATIC EXCLUDE_FROM_ALL
   ${VH_REPO}/src/test/fuzz/util/net.cpp
   ${VH_REPO}/src/test/fuzz/util/threadinterrupt.cpp
 )
+target_include_directories(vh_glue PUBLIC ${VH_REPO}/src ${CMAKE_BINARY_DIR}/src ${VH_DIR})
+target_link_libraries(vh_glue PUBLIC ${VH_LINK_LIBS})
+add_library(vh_engine STATIC EXCLUDE_FROM_ALL ${VH_DIR}/engine/driver.cpp)
 target_include_directories(vh_engine PUBLIC ${VH_REPO}/src ${CMAKE_BINARY_DIR}/src ${VH_DIR})
-target_link_libraries(vh_engine PUBLIC ${VH_LINK_LIBS})
+target_link_libraries(vh_engine PUBLIC vh_glue ${VH_LINK_LIBS})
 
 # kits: shared simulation substrate (ChainSim, RefLedger, ...)
 file(GLOB VH_KIT_SRCS CONFIGURE_DEPENDS ${VH_DIR}/kits/*.cpp)
 if(VH_KIT_SRCS)
   add_library(vh_kits STATIC EXCLUDE_FROM_ALL ${VH_KIT_SRCS})
   target_include_directories(vh_kits PUBLIC ${VH_REPO}/src ${CMAKE_BINARY_DIR}/src ${VH_DIR})
-  target_link_libraries(vh_kits PUBLIC vh_engine ${VH_LINK_LIBS})
+  target_link_libraries(vh_kits PUBLIC vh_glue ${VH_LINK_LIBS})
 endif()
 
 # one executable per property: harness/targets/cNN_*.cpp -> vh_cNN
@@ -57,7 +59,16 @@ foreach(prop IN LISTS VH_PROPS)
   target_link_libraries(vh_${prop} PRIVATE vh_engine $<TARGET_NAME_IF_EXISTS:vh_kits> ${VH_LINK_LIBS})
   set_target_properties(vh_${prop} PROPERTIES RUNTIME_OUTPUT_DIRECTORY ${CMAKE_BINARY_DIR}/vh)
 endforeach()
+# sutd: persistent system-under-test daemon for engine E2 (line-delimited JSON over stdin/stdout); own main()
+file(GLOB VH_SUTD_SRCS CONFIGURE_DEPENDS ${VH_DIR}/sutd/*.cpp)
 add_custom_target(vh_all DEPENDS)
+if(VH_SUTD_SRCS)
+  add_executable(sutd EXCLUDE_FROM_ALL ${VH_SUTD_SRCS})
+  target_include_directories(sutd PRIVATE ${VH_REPO}/src ${CMAKE_BINARY_DIR}/src ${VH_DIR})
+  target_link_libraries(sutd PRIVATE vh_glue ${VH_LINK_LIBS})
+  set_target_properties(sutd PROPERTIES RUNTIME_OUTPUT_DIRECTORY ${CMAKE_BINARY_DIR}/vh)
+  add_dependencies(vh_all sutd)
+endif()
 foreach(prop IN LISTS VH_PROPS)
   add_dependencies(vh_all vh_${prop})
 endforeach()
